@@ -715,7 +715,9 @@ def __and__(self, other):
             len_a = len(a_coord) if isinstance(a_coord, tuple) else 1
             len_b = len(b_coord) if isinstance(b_coord, tuple) else 1
 
-            if len_a == len_b:
+            # An empty operand gives no hint about its coordinate arity (and
+            # the intersection is empty anyway), so do not try to pad it
+            if a_coord is None or b_coord is None or len_a == len_b:
                 def succ_next(a, a_coord, a_payload, b, b_coord, b_payload):
                     return *_get_next(a), *_get_next(b)
 
